@@ -311,6 +311,8 @@ Proof.
     destruct (is_active_node (rn r)); cbn [negb]; [|exact Nop].
     apply send_heartbeat_api_sh; [exact Hc|exact H|lia|unfold dev_count; lia].
   - (* SendHeartbeat(iDev) *)
+    rewrite shr_rn, shn_active.
+    destruct (is_active_node (rn r)); cbn [andb]; [|exact Nop].
     rewrite valid_dev_sh. destruct (valid_dev r idev) eqn:Ev; [|exact Nop].
     pose proof (valid_dev_vi r idev Ev) as V.
     rewrite get_devx_sh by (apply (tok_vx c); assumption). cbn [shift_devx x_hb shift_ss ss_period].
